@@ -213,7 +213,7 @@ fn real_eps() -> Vec<Ep> {
             |v| c::filter::get_filter::v3::Request::new(uid(&v[0])?, v[1].clone()),
             |_v| None),
         ep!("client::media::get_content", 2, c::media::get_content::v3,
-            |v| c::media::get_content::v3::Request::new(v[0].clone(), "x.y".try_into().ok()?),
+            |v| { let mut r = c::media::get_content::v3::Request::new(v[0].clone(), "x.y".try_into().ok()?); r.timeout_ms = std::time::Duration::from_millis([20_000u64, 20_500, 20_999, 19_999, 21_000, 1, 0, 20_001][v[1].chars().count() % 8]); r.allow_redirect = v[1].len() % 3 == 1; r },
             |v| { let mut r = c::media::get_content::v3::Response::new(v[0].as_bytes().to_vec(), "text/plain".to_owned(), ruma_common::http_headers::ContentDisposition::new(ruma_common::http_headers::ContentDispositionType::Inline).with_filename(Some(v[1].clone()))); if v[1] == "-" { r.content_type = None; r.content_disposition = None; r.cross_origin_resource_policy = None; } Some(r) }),
         ep!("client::authenticated_media::get_content_as_filename", 2, c::authenticated_media::get_content_as_filename::v1,
             |v| c::authenticated_media::get_content_as_filename::v1::Request::new(v[0].clone(), "x.y:8448".try_into().ok()?, v[1].clone()),
@@ -264,6 +264,10 @@ fn real_eps() -> Vec<Ep> {
         ep!("federation::directory::get_public_rooms", 1, f::directory::get_public_rooms::v1,
             |v| { let mut r = f::directory::get_public_rooms::v1::Request::new(); r.since = Some(v[0].clone()); r },
             |v| { let mut r = f::directory::get_public_rooms::v1::Response::new(); r.next_batch = Some(v[0].clone()); Some(r) }),
+        // the flattened RoomNetwork in a QUERY string (its deserializer was written for JSON bodies)
+        ep!("federation::directory::get_public_rooms+network", 2, f::directory::get_public_rooms::v1,
+            |v| { let mut r = f::directory::get_public_rooms::v1::Request::new(); r.limit = Some(uint!(5)); r.room_network = match v[1].chars().count() % 3 { 0 => ruma_common::directory::RoomNetwork::Matrix, 1 => ruma_common::directory::RoomNetwork::All, _ => ruma_common::directory::RoomNetwork::ThirdParty(v[0].clone()) }; r },
+            |_v| None),
         ep!("federation::directory::get_public_rooms_filtered", 1, f::directory::get_public_rooms_filtered::v1,
             |v| { let mut r = f::directory::get_public_rooms_filtered::v1::Request::new(); r.since = Some(v[0].clone()); r },
             |v| { let mut r = f::directory::get_public_rooms_filtered::v1::Response::new(); r.next_batch = Some(v[0].clone()); Some(r) }),
